@@ -134,6 +134,10 @@ class Tables(object):
         # index: label -> key used in the tables (default: position in labels)
         self.index = index if index is not None else {lab: i for i, lab in enumerate(labels)}
         self.zero = case.get("zero_delays", True)
+        # documented contract of fast_nonMarkov_SIS: "All delays are before
+        # recovery".  C13 also exercises lists that ignore it (the property
+        # speaks of every listed delay), flagged by sis_unfiltered.
+        self.unfiltered = bool(case.get("sis_unfiltered"))
         self.calls = []
         self.count = {}
 
@@ -192,7 +196,7 @@ class Tables(object):
         k = self._k("t", i, j)
         self.calls.append(("trans", u, v, k))
         # documented contract: "All delays are before recovery"
-        return [d for d in self.sis_delays_k(i, j, k) if d < rec_delay]
+        return [d for d in self.sis_delays_k(i, j, k) if self.unfiltered or d < rec_delay]
 
     def sis_joint(self, node, neighbors, *args):
         i = self.index[node]
@@ -200,7 +204,7 @@ class Tables(object):
         nb = list(neighbors)
         self.calls.append(("joint", node, k))
         dur = self.sis_duration_k(i, k)
-        return {v: [d for d in self.sis_delays_k(i, self.index[v], k) if d < dur] for v in nb}, dur
+        return {v: [d for d in self.sis_delays_k(i, self.index[v], k) if self.unfiltered or d < dur] for v in nb}, dur
 
     # discrete_SIR deterministic rule
     def contact_ok(self, u, v, *args):
